@@ -58,7 +58,7 @@ Proof.
   intros W HT Hh Hp u'.
   pose proof (has_host_authority u W Hh) as Ha. pose proof (wf_auth_facts u W Ha) as F.
   pose proof (af_ue F); pose proof (af_hs F); pose proof (af_he F); pose proof (af_ps F); pose proof (af_len F).
-  pose proof (HT Hh) as Hne.
+  pose proof (HT Hh) as (Hne & Hne1 & Hne2).
   set (A := nfirstn (host_end u) (ser u)). set (X := port_text p). set (B := nskipn (path_start u) (ser u)).
   assert (nlen A = host_end u) as LA by (apply nlen_nfirstn; lia).
   assert (ser u' = A ++ X ++ B) as Es by reflexivity.
@@ -102,7 +102,8 @@ Proof.
     - apply (sfx_pathstart_ok u u' (path_start u) (host_end u + nlen X) W Hsuf); try lia; assumption.
     - apply (sfx_qf_ok u u' (path_start u) (host_end u + nlen X) W Hsuf); try lia; assumption. }
   split; [exact W'|]. split; [|split; [|split; [reflexivity|]]].
-  - intros _. exact Hne.
+  - intros _. change (host_start u') with (host_start u). change (host_end u') with (host_end u).
+    rewrite (pre_byte_eqb _ _ _ _ 58 Hpre) by lia. rewrite (pre_byte_eqb _ _ _ _ 64 Hpre) by lia. tauto.
   - apply (fp_ids u u' (host_end u)); try assumption; try reflexivity; lia.
   - apply (sfx_back dbg u u' (path_start u) (host_end u + nlen X)); try assumption; try lia.
 Qed.
